@@ -673,7 +673,7 @@ func (c *Ctx) verifyLocalPrefStripGuards() bool {
 	ok1 := true
 	var orig *ssa.Parameter
 	for _, p := range upa.Params {
-		if p.Name() == "original" || (orig == nil && strings.HasSuffix(p.Type().String(), "table.Path")) {
+		if strings.HasSuffix(p.Type().String(), "table.Path") { // by type, not by name
 			orig = p
 		}
 	}
